@@ -13,7 +13,7 @@ def run(tier, seed, replay):
     cov = dict(samples=[])
     tlc = {}
     rows = []
-    cfgs = ["quick"] if tier == "quick" else ["quick", "wide"]
+    cfgs = ["quick", "links"] if tier == "quick" else ["quick", "links", "wide"]
     for c in cfgs:
         r = lib.run_tlc(sdir, "MC_CleanDir.tla", "MC_CleanDir_%s.cfg" % c, timeout=3000)
         if not r.ok:
